@@ -285,6 +285,13 @@ class ConcE:
     def prove(self, label, cond, **meta):
         self.results.append((label, bool(cond), meta))
 
+    def prove_forall(self, label, lo, hi, body, use=None, **meta):
+        ok = all(bool(body(k)) for k in range(lo, hi))
+        self.results.append((label, ok, meta))
+
+    def use_lemma(self, name, cond):
+        return cond
+
     def cover(self, label):
         self.covers.add(label)
 
